@@ -215,6 +215,36 @@ def swizzle_masks(n, rnd, nrandom, per128, full=True):
     return fam
 
 
+def pair_masks(n, rnd, nrandom, full=True):
+    """masks made of (2k, 2k+1) pairs: the only 16-bit constant swizzles avx512f/cd/dq accept (folded to a 32-bit permute)"""
+    h = n // 2
+    fam = []
+
+    def add(name, pm):
+        fam.append((name, [2 * (p % h) + j for p in pm for j in (0, 1)]))
+    add("pairs_identity", list(range(h)))
+    add("pairs_reverse", list(range(h - 1, -1, -1)))
+    for k in (range(h) if full else sorted({1 % h, h // 2, h - 1, rnd.randrange(h)})):
+        add("pairs_rotate", [(i + k) for i in range(h)])
+        add("pairs_broadcast", [k] * h)
+    add("pairs_swap_halves", [(i + h // 2) for i in range(h)])
+    add("pairs_in_lane_reverse", [(i // 4) * 4 + 3 - i % 4 for i in range(h)] if h >= 4 else list(range(h)))
+    add("pairs_one_off_identity", [i if i != h // 2 else (i + 1) % h for i in range(h)])
+    for _ in range(nrandom):
+        add("pairs_random", [rnd.randrange(h) for _ in range(h)])
+    return fam
+
+
+def split_high_masks(n):
+    """the masks detail::reduce builds (split_high<n/2> ... split_high<1>): kernels special-case them"""
+    out = []
+    k = n // 2
+    while k >= 1:
+        out.append(("split_high_%d" % k, [(i % 2) if i >= k else i + k for i in range(n)]))
+        k //= 2
+    return out
+
+
 def shuffle_masks(n, rnd, nrandom, per128, full=True):
     fam = []
 
@@ -284,6 +314,15 @@ def c05_records(target, tier, rnd):
             else:
                 for name, m in swizzle_masks(n, rnd, nrand, per128, full=(tier != "quick")):
                     recs.append(Record("swizzle", ty, m, name, nontrivial=name not in ("identity", "reverse", "dup_even", "dup_odd")))
+        elif cap("swizzle_const_pairs", target, ty):
+            # only (even, even+1) pair masks are accepted (16-bit lanes on avx512f/cd/dq), plus the one reduce mask
+            for name, m in pair_masks(n, rnd, nrand + 3, full=(tier != "quick")):
+                recs.append(Record("swizzle", ty, m, name, nontrivial=name != "pairs_identity"))
+            if cap("swizzle_const_split1", target, ty):
+                recs.append(Record("swizzle", ty, split_high_masks(n)[-1][1], "split_high_1"))
+        if cap("swizzle_const", target, ty) and cap("swizzle_const_mix", target, ty) and n > 4:
+            for name, m in split_high_masks(n):
+                recs.append(Record("swizzle", ty, m, name))
         if cap("shuffle", target, ty):
             if n == 2:
                 for k in range(16):
@@ -361,6 +400,14 @@ def c19_records(target, tier, rnd):
         if cap("swizzle_const", target, ty) and cap("swizzle_const_mix", target, ty) and cap("swizzle_dyn", target, ty):
             for name, m in swizzle_masks(n, rnd, 2 if tier == "quick" else 20, per128)[:12 if tier == "quick" else 400]:
                 recs.append(Record("swizzle_vs_dynamic", ty, m, name, nontrivial=name != "identity"))
+            if n > 4:
+                for name, m in split_high_masks(n):
+                    recs.append(Record("swizzle_vs_dynamic", ty, m, name))
+        elif cap("swizzle_const_pairs", target, ty) and cap("swizzle_dyn", target, ty):
+            for name, m in pair_masks(n, rnd, 2 if tier == "quick" else 20, full=(tier != "quick")):
+                recs.append(Record("swizzle_vs_dynamic", ty, m, name, nontrivial=name != "pairs_identity"))
+            if cap("swizzle_const_split1", target, ty):
+                recs.append(Record("swizzle_vs_dynamic", ty, split_high_masks(n)[-1][1], "split_high_1"))
         if cap("shuffle", target, ty) and cap("swizzle_dyn", target, ty) and n >= 2:
             ms = shuffle_masks(n, rnd, 2 if tier == "quick" else 30, per128, full=(tier != "quick"))
             if tier == "quick":
